@@ -15,7 +15,7 @@ RULE = ("every inductive estimator (all but the nonparametric ones, Kauri includ
 ASSUMPTIONS = ["BLAS blocking may change the last bits of a product: probabilities are compared to 1e-9 absolute"]
 EVAL_COUNTER = "comparisons"
 REQUIRED = {"quick": dict({"comparisons": 2500, "single_row_comparisons": 600, "fit_final_forward_compared": 300,
-                           "train_predict_equals_labels": 350, "big_batches": 45, "big_rows_compared": 1200},
+                           "train_predict_equals_labels": 350, "big_batches": 45, "kauri_fits_far_from_origin": 8, "big_rows_compared": 1200},
                           **{"fit:" + e: 15 for e in gen.ESTIMATORS if e not in gen.NONPARAMETRIC}),
             "thorough": {"comparisons": 40000}}
 SHARD_TIMEOUT = {"quick": 1200, "thorough": 7000}
@@ -137,6 +137,13 @@ def run_case(case, ctx, st):
     n = int(rng.integers(4, 35))
     nonneg = bool(rng.random() < 0.15)
     X = gen.make_data(rng, n, d, "nonneg" if nonneg else ["blobs", "ties"][int(rng.integers(0, 2))])
+    far = None
+    if name == "Kauri" and rng.random() < 0.4:
+        # features recorded far from the origin (time stamps, projected coordinates, identifiers): neighbouring values
+        # differ in the 8th..12th significant digit only - still different numbers
+        far = (float(rng.choice([1.0, 60.0, 1e-3])), float(rng.choice([1.7e9, 4.2e6, -3.1e11, 2.0 ** 40] if not nonneg else [1.7e9, 4.2e6, 2.0 ** 40])))
+        X = X * far[0] + far[1]
+        ctx.count("kauri_fits_far_from_origin")
     params, pre = gen.random_config(rng, name, n, d, nonneg=nonneg, allow_precomputed=False)
     est = gen.build_estimator(name, params)
     ctx.case = dict(case, estimator=name, params=params, n=n, d=d)
@@ -178,6 +185,8 @@ def run_case(case, ctx, st):
                 ctx.violation("per-sample", f"routing-depends-on-other-rows/{mech_base}", observed={"query": "X_train[::-1] (a view)"}, expected="equal")
         m = int(rng.integers(2, 25))
         fresh = gen.make_data(rng, m, d, "nonneg" if nonneg else "blobs") * float(rng.uniform(0.5, 2.0))
+        if far is not None:
+            fresh = fresh * far[0] + far[1]
         Q = np.vstack([fresh, X[rng.integers(0, n, size=min(n, 6))]])
         full_l = np.asarray(est.predict(Q))
         full_p_obj = None if is_kauri else est.predict_proba(Q)
